@@ -16,6 +16,7 @@ RULE = ("case = random class family + random type AST (depth<=2 quick / <=4 thor
         "options, x 8 (quick) / 24 (thorough) conforming values from edge pools; oracle: deep_eq(decode(encode(v)), v) "
         "(== plus identical concrete class at every node). distinct_nontrivial = distinct (type shape, value "
         "fingerprint) pairs whose value is a non-empty structure or non-default scalar.")
+RULE += " Additions: NamedTuple engine lattice incl. nested NamedTuples; wrapper member aliased; battery of rarely used constructors (GenericSerializableType, TypeVarTuple generics, LiteralString, collections.namedtuple, ReadOnly) with hand-written wire forms."
 ASSUMPTIONS = [
     "values are drawn from finite edge pools; NaN, regex flags, named/sub-minute timezones and unions whose "
     "members share a wire form are excluded as the property states",
